@@ -9,7 +9,7 @@ from contracts import C04, C35
 
 LEVEL = "other"
 MANIFEST_ENTRY = {
-    "text": "Check-before-use contracts at every gate between a storage server's bytes and the reader, with the hash functions uninterpreted and the Merkle trees replaced by their own contract (C35, re-run here: a tree accepts a leaf only if it chains to the root it was seeded with, and a rejection leaves it unchanged). (1) validate_and_store_UEB parses and adopts a URI extension block only if uri_extension_hash(UEB) equals the hash in the capability, otherwise BadHashError and no state change. (2) _parse_and_store_UEB seeds the share hash tree and the ciphertext hash tree with the roots from that authenticated UEB and takes k and N from the capability, never from the UEB. (3) CommonShare.check_block accepts a block only through block_hash_tree.set_hashes(leaves={segnum: block_hash(block)}). (4) Share._satisfy_data_block notifies observers COMPLETE with a block only after check_block returned normally; on BadHashError / NotEnoughHashesError they get CORRUPT and no data. (5) _check_ciphertext_hash releases (offset, segment) only after ciphertext_hash_tree.set_hashes(leaves={segnum: crypttext_segment_hash(segment)}) accepted it, with offset = segnum * segment_size; otherwise BadCiphertextHashError. (6) Segmentation._got_segment (C04) writes to the consumer only the bytes of the released segment that start at the next wanted offset, so whatever was delivered before an error is a correct prefix.",
+    "text": "Check-before-use contracts at every gate between a storage server's bytes and the reader, with the hash functions uninterpreted and the Merkle trees replaced by their own contract (C35, re-run here: a tree accepts a leaf only if it chains to the root it was seeded with, and a rejection leaves it unchanged). (1) validate_and_store_UEB parses and adopts a URI extension block only if uri_extension_hash(UEB) equals the hash in the capability, otherwise BadHashError and no state change. (2) _parse_and_store_UEB seeds the share hash tree and the ciphertext hash tree with the roots from that authenticated UEB and takes k and N from the capability, never from the UEB. (3) CommonShare.check_block accepts a block only through block_hash_tree.set_hashes(leaves={segnum: block_hash(block)}). (4) Share._satisfy_data_block notifies observers COMPLETE with a block only after check_block returned normally; on BadHashError / NotEnoughHashesError they get CORRUPT and no data. (5) _check_ciphertext_hash releases (offset, segment) only after ciphertext_hash_tree.set_hashes(leaves={segnum: crypttext_segment_hash(segment)}) accepted it, with offset = segnum * segment_size; otherwise BadCiphertextHashError. (6) DecryptingConsumer positions AES-CTR at block offset//16 and skips offset%16 bytes (bounded run-time contract of C04, re-run here), and Segmentation._got_segment (C04) writes to the consumer only the bytes of the released segment that start at the next wanted offset, so whatever was delivered before an error is a correct prefix.",
     "note": "Each gate is a function contract; that the gates are wired in this order (Share loop, SegmentFetcher, DownloadNode.fetch_failed/_got_segment callbacks) is a property of Deferred/observer plumbing that is not under contract (see C03). SHA-256d collision resistance is assumed. Offset-table sanity checks (_satisfy_offsets) are not under contract.",
     "technique": "contract-based deductive verification (pyvc VCs + z3) with callee contracts for the hash trees and uninterpreted hashes",
 }
@@ -101,7 +101,10 @@ class ParseUEBRoots(Spec):
     no_normal_path_ok = False
 
     def inputs(self):
-        return {"segsize": IntK(1), "k_ueb": IntK(1, 256), "n_ueb": IntK(1, 256)}
+        return {"segsize": IntK(1), "k_ueb": IntK(1, 256), "n_ueb": IntK(1, 256), "guess_right": ChoiceK([False, True])}
+
+    def all_cases(self):
+        return [{"guess_right": False}, {"guess_right": True}]
 
     def config(self):
         me = self
@@ -123,7 +126,10 @@ class ParseUEBRoots(Spec):
         from allmydata.uri import CHKFileVerifierURI
         vcap = SObj(CHKFileVerifierURI, {"uri_extension_hash": b"h" * 32, "needed_shares": 3, "total_shares": 10, "size": 100, "storage_index": b"s" * 16})
         obs = stub("observers", fire=noop)
-        n = SObj(self.module().DownloadNode, {"_verifycap": vcap, "_lp": None, "_segsize_observers": obs, "share_hash_tree": stree, "guessed_segment_size": 7, "guessed_num_segments": 1})
+        # a guess made before the UEB arrived: right (4 segments, as _calculate_sizes will say) or wrong
+        guessed = 4 if a["guess_right"] else 1
+        n = SObj(self.module().DownloadNode, {"_verifycap": vcap, "_lp": None, "_segsize_observers": obs, "share_hash_tree": stree, "guessed_segment_size": 7, "guessed_num_segments": guessed,
+                                             "ciphertext_hash_tree": tree_stub("guessed_ciphertext_hash_tree", self._log), "ciphertext_hash_tree_leaves": guessed, "num_segments": None})
         try:
             out = Outcome("return", I.call_value(self.target(I), [n, b"ueb-bytes"], {}))
         except PyRaise as pr:
@@ -139,7 +145,8 @@ class ParseUEBRoots(Spec):
     def ensures(self, I, a, out):
         log = self._log
         roots = {e[0]: e[1] for e in log if isinstance(e[1], dict) and 0 in e[1]}
-        g = [("ciphertext-tree-is-seeded-with-the-root-from-the-UEB", z3.BoolVal(roots.get("ciphertext_hash_tree") == {0: b"C" * 32})),
+        ct = roots.get("ciphertext_hash_tree") or roots.get("guessed_ciphertext_hash_tree")
+        g = [("ciphertext-tree-is-seeded-with-the-root-from-the-UEB-whether-or-not-the-segment-guess-was-right", z3.BoolVal(ct == {0: b"C" * 32})),
              ("encoding-parameters-come-from-the-capability-not-the-UEB", z3.BoolVal(len(self._codec) == 1 and self._codec[0][1:] == (3, 10)))]
         if out.kind == "return":
             g.append(("share-hash-tree-is-seeded-with-the-root-from-the-UEB", z3.BoolVal(roots.get("share_hash_tree") == {0: b"S" * 32})))
@@ -312,6 +319,14 @@ class CheckCiphertextHash(Spec):
 
     def canary(self, I, a, out):
         return [("canary", z3.BoolVal(out.kind != "return"))]
+
+
+def extra_checks(rep, tier):
+    # wrong plaintext is wrong bytes too: the AES-CTR positioning contract of C04 is re-run under this property
+    n0 = len(rep.violations)
+    C04.extra_checks(rep, tier)
+    for v in rep.violations[n0:]:
+        v["property"] = "C02"
 
 
 def contracts(tier):
